@@ -229,10 +229,16 @@ def runCase (c : Sexp) : String := Id.run do
       out := out ++ " wfraw=" ++ sh w1 ++ " wfopt=" ++ sh w2
     let mut st : VM.RunSt := { env := env }
     let mut i := 0
+    let mut later : List (Str × VM.FnImpl) := []
     for r in runs do
       let obj := match r.args with | o :: _ => hostValOf o | _ => HostVal.nilIface
       let polls : Int := match r.args with | _ :: p :: _ => p.int | _ => -1
-      let M := { p.machine with done := fun n => polls ≥ 0 && (n : Int) ≥ polls }
+      -- functions the host registers (again) just before this run: the last registration of a name wins
+      let more := match r.args with
+        | _ :: _ :: f :: _ => f.args.map (fun (p : Sexp) => match p.items with | [n, f] => (Sexp.str n, VM.FnImpl.host (hostFnOf f)) | _ => ([], VM.FnImpl.host .void))
+        | _ => []
+      later := later ++ more
+      let M := { p.machine with fns := p.machine.fns ++ later, done := fun n => polls ≥ 0 && (n : Int) ≥ polls }
       let st0 : VM.RunSt := { env := st.env, out := [], polls := 0 }
       let (res, st') := Api.execute M obj st0
       st := st'
